@@ -23,6 +23,7 @@ def lib(variant="plain"):
         L.vp_convert_to_file.restype = None; L.vp_convert_to_file.argtypes = [c_char_p, c_ulong, c_int, c_int, c_char_p, c_char_p, c_int]
         L.vp_meta.restype = c_void_p; L.vp_meta.argtypes = [c_char_p, c_int, c_char_p, c_char_p, c_int]
         L.vp_meta_engine_history.restype = c_void_p; L.vp_meta_engine_history.argtypes = [c_char_p, c_char_p]
+        L.vp_meta_engine_requery.restype = c_void_p; L.vp_meta_engine_requery.argtypes = [c_char_p]
         L.vp_critic.restype = c_void_p; L.vp_critic.argtypes = [c_char_p, c_int, c_size_t, c_size_t, c_int]
         L.vp_transclude.restype = c_void_p; L.vp_transclude.argtypes = [c_char_p, c_char_p, c_char_p, c_int, POINTER(c_void_p)]
         L.vp_manifest.restype = c_void_p; L.vp_manifest.argtypes = [c_char_p, c_char_p, c_char_p]
@@ -78,8 +79,15 @@ def meta(src, op, key=b"", val=b"", fam=0):
     return _take(lib().vp_meta(src, op, key, val, fam))
 
 def meta_engine_history(src, ops):
+    """returns (final text, [same-engine read-back after each update], same-engine key listing)"""
     enc = b"\x1e".join(k + b"\x1f" + v for k, v in ops)
-    return _take(lib().vp_meta_engine_history(src, enc))
+    r = _take(lib().vp_meta_engine_history(src, enc))
+    text, ans, keys = r.split(b"\x1d")
+    return text, [None if a == b"\x01" else a for a in ans.split(b"\x1e")[:-1]], [k for k in keys.split(b"\n") if k]
+
+def meta_engine_requery(src):
+    a, b = _take(lib().vp_meta_engine_requery(src)).split(b"\x1d")
+    return [k for k in a.split(b"\n") if k], [k for k in b.split(b"\n") if k]
 
 def critic(src, reject=False, start=None, length=None):
     if start is None:
